@@ -4,7 +4,8 @@
      PY  sdk/python       (locators_and_ranges, normalize_stream, escape under python3)
    spec_b judges the IMPLEMENTATION's observations against the reference of C10_manifest.v (never against the codec
    models); model_b compares the codec model with the observation.
-   check_case: 0 ok; +1 model/implementation mismatch; +2 specification violated; +4 instance of F15; +8 instance of F14. *)
+   check_case: 0 ok; +1 model/implementation mismatch; +2 specification violated.  (The findings F14/F15 of the first
+   round are repaired in /repo; there is no known-finding bit any more.) *)
 From Coq Require Import NArith List Ascii String Bool.
 From AV Require Import lib.Str lib.Md5 model.C10_manifest model.C10_ranges model.C10_fs model.C10_gomanifest model.C10_python.
 Import ListNotations.
@@ -126,8 +127,6 @@ Definition spec_valid_with (h : string) (c : case) : bool :=
   end.
 Definition spec_valid (c : case) : bool := spec_valid_with (pdh_of (strip_manifest (c_txt c))) c.
 Definition spec_b (c : case) : bool := spec_always c && spec_valid c && spec_reject c.
-(* F15: a file token whose offset+length overflows int64 *)
-Definition known_F15_b (c : case) : bool := has_overflow_tok (2 ^ 63) (c_txt c).
 
 (* = (if model_b c then 0 else 1) + (if spec ... ), with the two MD5 computations shared when the texts coincide
    (lemma check_case_eq in proofs/C10_run_proofs.v) *)
@@ -137,7 +136,7 @@ Definition check_case (c : case) : N :=
   let h := pdh_of pt in
   let h' := if String.eqb sm pt then h else pdh_of sm in
   ((if model_with h c then 0 else 1) +
-   (if spec_always c && spec_valid_with h' c then (if spec_reject c then 0 else if known_F15_b c then 4 else 2) else 2))%N.
+   (if spec_always c && spec_valid_with h' c && spec_reject c then 0 else 2))%N.
 Definition failing (cs : list case) : list (N * N) := failing_from check_case 0%N cs.
 End FS.
 
@@ -233,12 +232,9 @@ Definition esc_op (x : gop * gobs) : bool :=
   end.
 Definition spec_esc (c : case) : bool := forallb esc_op (c_ops c).
 Definition spec_b (c : case) : bool := spec_robust c && spec_valid c && spec_esc c.
-(* F14: a file token whose pos+len overflows uint64 *)
-Definition known_F14_b (c : case) : bool := has_overflow_tok (2 ^ 64) (c_txt c).
 
 Definition check_case (c : case) : N :=
-  ((if model_b c then 0 else 1) +
-   (if spec_valid c && spec_esc c then (if spec_robust c then 0 else if known_F14_b c then 8 else 2) else 2))%N.
+  ((if model_b c then 0 else 1) + (if spec_b c then 0 else 2))%N.
 Definition failing (cs : list case) : list (N * N) := failing_from check_case 0%N cs.
 End GM.
 
